@@ -171,6 +171,10 @@ func (rc *RunCtx) Note(format string, a ...interface{}) {
 	rc.Res.Notes = append(rc.Res.Notes, fmt.Sprintf(format, a...))
 }
 
+// DumpedLog holds the event log of the last scenario run with P["dumplog"] (debugging aid for the
+// determinism self-test).
+var DumpedLog []string
+
 type Driver func(rc *RunCtx)
 
 var Drivers = map[string]Driver{}
@@ -260,6 +264,17 @@ func RunScenario(t *testing.T, sc *Scenario) *Result {
 	// into the event-log hash through the sample
 	if len(rc.Worlds) == 0 && res.Sample != nil {
 		h.Write([]byte(toJSON(res.Sample)))
+	}
+	if sc.Bool("dumplog") {
+		DumpedLog = nil
+		for _, w := range rc.Worlds {
+			if !w.Quiet {
+				DumpedLog = append(DumpedLog, w.Log...)
+				for _, n := range w.Nodes {
+					DumpedLog = append(DumpedLog, fmt.Sprintf("reads %s=%d/%d,%d/%d", n.Name, n.Rand.main.Reads, n.Rand.main.Bytes, n.PKRand.main.Reads, n.PKRand.main.Bytes))
+				}
+			}
+		}
 	}
 	res.LogHash = hex.EncodeToString(h.Sum(nil))
 	res.SchedHash = hex.EncodeToString(hs.Sum(nil)[:8])
